@@ -102,7 +102,9 @@ Definition entry_ok (e : fwd) : bool :=
     match fw_recv e with
     | RecvRef | RecvMut => String.eqb c m && ((style_eqb (fw_style e) MethodCall && pass_eqb (fw_pass e) PStarStar) || names_inner e "I")
     | RecvOwn => String.eqb c (m ++ "_boxed") && style_eqb (fw_style e) PathCall && String.eqb (fw_path e) "I" && pass_eqb (fw_pass e) PSelf
-    | RecvBox => String.eqb m (c ++ "_boxed") && style_eqb (fw_style e) MethodCall && pass_eqb (fw_pass e) PStar
+    | RecvBox => (String.eqb m (c ++ "_boxed") && style_eqb (fw_style e) MethodCall && pass_eqb (fw_pass e) PStar)
+                 (* the same two hops written out: unbox the outer box, hand the inner box to I's own `m_boxed` *)
+                 || (String.eqb c m && style_eqb (fw_style e) PathCall && String.eqb (fw_path e) "I" && pass_eqb (fw_pass e) PStar)
     | RecvNone => false
     end
   | WRefThreaded =>
